@@ -108,6 +108,12 @@ def gene_with_isoforms(rnd, micro=True):
             if rnd.random() < .5: keep = keep[1:]
             else: keep = keep[:-1]
         if keep not in isoforms: isoforms.append(keep)
+    if rnd.random() < .3:                           # the same intron chain with an alternative end (alternative polyA / TSS site)
+        base = list(rnd.choice(isoforms)); amt = rnd.randint(60, 400)
+        if len(base) > 1:
+            if rnd.random() < .5: base[-1] = (base[-1][0], base[-1][1] + amt)
+            elif base[0][0] - amt > 10: base[0] = (base[0][0] - amt, base[0][1])
+            if base not in isoforms: isoforms.append(base)
     if rnd.random() < .15: isoforms.append([(pool[0][0] + 3, pool[0][1] + rnd.randint(0, 40))])      # mono-exonic isoform
     return isoforms
 
@@ -398,6 +404,13 @@ def c01_world(seed, n_chr=2):
                     pool.append(e2); base[j] = len(pool) - 1; add(base)
             if n >= 3 and rnd.random() < .4:                      # alternative first / last exon: drop a terminal exon
                 base = list(range(n)); add(base[1:] if rnd.random() < .5 else base[:-1])
+            if n >= 2 and rnd.random() < .5:                      # alternative polyA site: the same intron chain, 3' end 60..400 bp away
+                base = list(rnd.choice([ix for ix in isoforms.values() if len(ix) >= 2])); j = len(base) - 1 if strand == "+" else 0; a, b = pool[base[j]]
+                amt = rnd.randint(60, 400); shorter = (b - a + 1 > amt + 40) and rnd.random() < .5
+                if strand == "+": e2 = (a, b - amt) if shorter else (a, b + amt)
+                else: e2 = (a + amt, b) if shorter else (a - amt, b)
+                if e2[0] > 600 and e2[1] + 2600 < L and e2 not in pool and (strand == "+" or start <= e2[0]):
+                    pool.append(e2); base[j] = len(pool) - 1; add(base)
             if n >= 2 and rnd.random() < .3:                      # mono-exonic isoform on one exon
                 j = rnd.randrange(n); add([j])
             ends = [pool[i] for ix in isoforms.values() for i in ix]
